@@ -160,6 +160,30 @@ def parse_tla_value(s):
     return val()
 
 
+def extract_values(out, tag):
+    """All values <<"tag", ...>> printed by TLC (possibly pretty-printed over several lines)."""
+    vals = []
+    for m in re.finditer(r'<<\s*"%s"' % tag, out):
+        i = j = m.start()
+        depth = 0
+        while j < len(out):
+            if out.startswith('<<', j):
+                depth += 1
+                j += 2
+            elif out.startswith('>>', j):
+                depth -= 1
+                j += 2
+                if depth == 0:
+                    break
+            else:
+                j += 1
+        try:
+            vals.append(parse_tla_value(out[i:j]))
+        except (AssertionError, IndexError):
+            pass
+    return vals
+
+
 class Check:
     """Bookkeeping of one check run (one property, one tier)."""
 
